@@ -31,7 +31,7 @@ CHECKS["C11"] = {
     "technique": "property-based testing (rapid): model-based oracle + metamorphic relations",
     "parts": [
         {"engine": "P", "pkg": "internal/domain_matcher", "tests": [
-            {"run": "TestVfC11Match", "quick": 20000, "thorough": 1600000, "shards_quick": 4, "shards_thorough": 16,
+            {"run": "TestVfC11Match", "quick": 20000, "thorough": 14117650, "timeout_thorough": 3000, "shards_quick": 4, "shards_thorough": 16,
              "timeout_thorough": 2400},
         ]},
     ],
@@ -50,7 +50,7 @@ CHECKS["C02"] = {
     "technique": "property-based testing (rapid): round trip + differential against independent decoders",
     "parts": [
         {"engine": "P", "pkg": "internal/dnsmsg", "tests": [
-            {"run": "TestVfC02RoundTrip", "quick": 24000, "thorough": 1600000, "shards_quick": 8, "shards_thorough": 16,
+            {"run": "TestVfC02RoundTrip", "quick": 24000, "thorough": 3453240, "timeout_thorough": 3000, "shards_quick": 8, "shards_thorough": 16,
              "timeout_thorough": 3000},
         ]},
     ],
@@ -69,11 +69,11 @@ CHECKS["C09"] = {
     "technique": "property-based testing (rapid): validity predicate over the output + independent decoders",
     "parts": [
         {"engine": "P", "pkg": "internal/dnsmsg", "tests": [
-            {"run": "TestVfC09PackLimit", "quick": 16000, "thorough": 800000, "shards_quick": 8, "shards_thorough": 16,
+            {"run": "TestVfC09PackLimit", "quick": 16000, "thorough": 3934430, "timeout_thorough": 3000, "shards_quick": 8, "shards_thorough": 16,
              "timeout_thorough": 3000},
         ]},
         {"engine": "E", "proxy": ["plain"], "tests": [
-            {"run": "TestVfC09Listeners", "quick": 800, "thorough": 24000, "shards_quick": 8, "shards_thorough": 16, "timeout_thorough": 3400},
+            {"run": "TestVfC09Listeners", "quick": 800, "thorough": 720000, "shards_quick": 8, "shards_thorough": 16, "timeout_thorough": 3400},
         ]},
     ],
     "assumptions": [
@@ -89,11 +89,11 @@ CHECKS["C01"] = {
     "technique": "property-based testing (rapid) with structure-aware hostile generators + Go native coverage-guided fuzzing, differential/round-trip oracle in the target",
     "parts": [
         {"engine": "P", "pkg": "internal/dnsmsg", "tests": [
-            {"run": "TestVfC01Decoder", "quick": 60000, "thorough": 3200000, "shards_quick": 8, "shards_thorough": 16, "timeout_thorough": 3000},
-            {"run": "TestVfC01Names", "quick": 20000, "thorough": 400000, "shards_quick": 2, "shards_thorough": 4},
+            {"run": "TestVfC01Decoder", "quick": 60000, "thorough": 36923080, "shards_quick": 8, "shards_thorough": 16, "timeout_thorough": 3000},
+            {"run": "TestVfC01Names", "quick": 20000, "thorough": 12000000, "timeout_thorough": 3000, "shards_quick": 2, "shards_thorough": 4},
         ]},
         {"engine": "P", "pkg": "internal/dnsutils", "tests": [
-            {"run": "TestVfC01Frames", "quick": 10000, "thorough": 400000, "shards_quick": 4, "shards_thorough": 16},
+            {"run": "TestVfC01Frames", "quick": 10000, "thorough": 12000000, "timeout_thorough": 3000, "shards_quick": 4, "shards_thorough": 16},
         ]},
         {"engine": "E", "proxy": ["plain"], "tests": [
             {"run": "TestVfC01Listeners", "quick": 1600, "thorough": 40000, "shards_quick": 8, "shards_thorough": 16, "timeout_thorough": 3400},
@@ -116,13 +116,13 @@ CHECKS["C15"] = {
     "technique": "property-based testing (rapid): reference model + metamorphic isolation relation over generated histories",
     "parts": [
         {"engine": "P", "pkg": "internal/limiter", "tests": [
-            {"run": "TestVfC15Limiter", "quick": 30000, "thorough": 2000000, "shards_quick": 6, "shards_thorough": 16, "timeout_thorough": 3000},
+            {"run": "TestVfC15Limiter", "quick": 30000, "thorough": 22222220, "shards_quick": 6, "shards_thorough": 16, "timeout_thorough": 3000},
             {"run": "TestVfC15Concurrent", "quick": 400, "thorough": 20000, "shards_quick": 2, "shards_thorough": 8},
             {"run": "TestVfC15Gc", "quick": 1600, "thorough": 80000, "shards_quick": 8, "shards_thorough": 16},
             {"run": "TestVfC15GcKeepsLive", "quick": 0, "thorough": 2, "shards_thorough": 2},
         ]},
         {"engine": "E", "proxy": ["plain"], "tests": [
-            {"run": "TestVfC15Listeners", "quick": 96, "thorough": 2400, "shards_quick": 8, "shards_thorough": 16, "timeout_thorough": 3400},
+            {"run": "TestVfC15Listeners", "quick": 96, "thorough": 12860, "shards_quick": 8, "shards_thorough": 16, "timeout_thorough": 3400},
         ]},
     ],
     "assumptions": [
@@ -139,17 +139,17 @@ CHECKS["C07"] = {
     "technique": "property-based testing (rapid): differential vs reference lookup, metamorphic single-component changes, history invariant over serial-numbered answers, randomized concurrent hammer under -race",
     "parts": [
         {"engine": "P", "pkg": "internal/netlist", "tests": [
-            {"run": "TestVfC07Netlist", "quick": 20000, "thorough": 1000000, "shards_quick": 4, "shards_thorough": 16},
+            {"run": "TestVfC07Netlist", "quick": 20000, "thorough": 30000000, "timeout_thorough": 3000, "shards_quick": 4, "shards_thorough": 16},
         ]},
         {"engine": "P", "pkg": "app/router", "tests": [
-            {"run": "TestVfC07IpMarker", "quick": 6000, "thorough": 300000, "shards_quick": 2, "shards_thorough": 8},
-            {"run": "TestVfC07CacheKey", "quick": 20000, "thorough": 1000000, "shards_quick": 2, "shards_thorough": 8},
+            {"run": "TestVfC07IpMarker", "quick": 6000, "thorough": 9000000, "timeout_thorough": 3000, "shards_quick": 2, "shards_thorough": 8},
+            {"run": "TestVfC07CacheKey", "quick": 20000, "thorough": 30000000, "timeout_thorough": 3000, "shards_quick": 2, "shards_thorough": 8},
         ]},
         {"engine": "P", "pkg": "internal/cache", "race": True, "tests": [
             {"run": "TestVfC07MemCacheHammer", "quick": 128, "thorough": 6000, "shards_quick": 16, "shards_thorough": 12, "timeout_quick": 300},
         ]},
         {"engine": "E", "proxy": ["plain"], "tests": [
-            {"run": "TestVfC07Cache", "quick": 400, "thorough": 12000, "shards_quick": 8, "shards_thorough": 16, "timeout_thorough": 3400},
+            {"run": "TestVfC07Cache", "quick": 400, "thorough": 128570, "shards_quick": 8, "shards_thorough": 16, "timeout_thorough": 3400},
         ]},
     ],
     "assumptions": [
@@ -165,11 +165,11 @@ CHECKS["C08"] = {
     "technique": "property-based testing (rapid): policy-table oracle on generated responses, back-dated entries instead of a clock hook, timed end-to-end histories",
     "parts": [
         {"engine": "P", "pkg": "app/router", "tests": [
-            {"run": "TestVfC08StorePolicy", "quick": 15000, "thorough": 500000, "shards_quick": 4, "shards_thorough": 16},
-            {"run": "TestVfC08Ageing", "quick": 15000, "thorough": 500000, "shards_quick": 4, "shards_thorough": 16},
+            {"run": "TestVfC08StorePolicy", "quick": 15000, "thorough": 15000000, "timeout_thorough": 3000, "shards_quick": 4, "shards_thorough": 16},
+            {"run": "TestVfC08Ageing", "quick": 15000, "thorough": 15000000, "timeout_thorough": 3000, "shards_quick": 4, "shards_thorough": 16},
         ]},
         {"engine": "E", "proxy": ["plain"], "tests": [
-            {"run": "TestVfC08Timed", "quick": 4, "thorough": 64, "shards_quick": 4, "shards_thorough": 8, "timeout_thorough": 3400, "shrinktime": "30s"},
+            {"run": "TestVfC08Timed", "quick": 4, "thorough": 260, "shards_quick": 4, "shards_thorough": 8, "timeout_thorough": 3400, "shrinktime": "30s"},
         ]},
     ],
     "assumptions": [
@@ -186,10 +186,10 @@ CHECKS["C12"] = {
     "technique": "property-based testing (rapid): reference encoder differential + end-to-end observation of both sides",
     "parts": [
         {"engine": "P", "pkg": "app/router", "tests": [
-            {"run": "TestVfC12EcsEncoder", "quick": 50000, "thorough": 2000000, "shards_quick": 2, "shards_thorough": 8},
+            {"run": "TestVfC12EcsEncoder", "quick": 50000, "thorough": 60000000, "timeout_thorough": 3000, "shards_quick": 2, "shards_thorough": 8},
         ]},
         {"engine": "E", "proxy": ["plain"], "tests": [
-            {"run": "TestVfC12Edns", "quick": 2400, "thorough": 60000, "shards_quick": 8, "shards_thorough": 16, "timeout_thorough": 3400},
+            {"run": "TestVfC12Edns", "quick": 2400, "thorough": 1500000, "shards_quick": 8, "shards_thorough": 16, "timeout_thorough": 3400},
         ]},
     ],
     "assumptions": ["at most one OPT per message (RFC 6891)"],
@@ -204,7 +204,7 @@ CHECKS["C05"] = {
     "parts": [
         {"engine": "P", "pkg": "internal/upstream/transport", "tests": [
             {"run": "TestVfC05Pipeline", "quick": 2400, "thorough": 160000, "shards_quick": 12, "shards_thorough": 16, "args": ["-rapid.steps", "50"], "timeout_thorough": 3400},
-            {"run": "TestVfC05Rollover", "quick": 2, "thorough": 32, "shards_quick": 2, "shards_thorough": 16},
+            {"run": "TestVfC05Rollover", "quick": 2, "thorough": 960, "timeout_thorough": 3000, "shards_quick": 2, "shards_thorough": 16},
         ]},
     ],
     "assumptions": ["the server side is the harness's in-memory connection; dials always succeed (faults are C14's domain)"],
@@ -233,7 +233,7 @@ CHECKS["C16"] = {
     "technique": "property-based testing (rapid) over scripted fault outcomes of a fake upstream; token-carrying replies as oracle",
     "parts": [
         {"engine": "P", "pkg": "internal/upstream", "tests": [
-            {"run": "TestVfC16Fallback", "quick": 2000, "thorough": 60000, "shards_quick": 8, "shards_thorough": 16},
+            {"run": "TestVfC16Fallback", "quick": 2000, "thorough": 187500, "timeout_thorough": 3000, "shards_quick": 8, "shards_thorough": 16},
         ]},
     ],
     "assumptions": ["the upstream is created with NewUpstream(\"udp://127.0.0.1:port\") as the router does"],
@@ -247,13 +247,13 @@ CHECKS["C17"] = {
     "technique": "property-based testing (rapid): reference table differential for dial targets; generated certificate matrix end to end",
     "parts": [
         {"engine": "P", "pkg": "internal/upstream", "tests": [
-            {"run": "TestVfC17DialTarget", "quick": 4000, "thorough": 200000, "shards_quick": 4, "shards_thorough": 16},
+            {"run": "TestVfC17DialTarget", "quick": 4000, "thorough": 6000000, "timeout_thorough": 3000, "shards_quick": 4, "shards_thorough": 16},
             {"run": "TestVfC17QuicTarget", "quick": 60, "thorough": 600, "shards_quick": 1, "shards_thorough": 1, "exclusive": True},
-            {"run": "TestVfC17ServerName", "quick": 200, "thorough": 4000, "shards_quick": 2, "shards_thorough": 4},
+            {"run": "TestVfC17ServerName", "quick": 200, "thorough": 120000, "timeout_thorough": 3000, "shards_quick": 2, "shards_thorough": 4},
         ]},
         {"engine": "E", "proxy": ["plain"], "tests": [
-            {"run": "TestVfC17UpstreamAuth", "quick": 160, "thorough": 4000, "shards_quick": 8, "shards_thorough": 16, "shrinktime": "15s"},
-            {"run": "TestVfC17ClientCert", "quick": 120, "thorough": 3000, "shards_quick": 4, "shards_thorough": 8, "shrinktime": "15s"},
+            {"run": "TestVfC17UpstreamAuth", "quick": 160, "thorough": 120000, "timeout_thorough": 3000, "shards_quick": 8, "shards_thorough": 16, "shrinktime": "15s"},
+            {"run": "TestVfC17ClientCert", "quick": 120, "thorough": 90000, "timeout_thorough": 3000, "shards_quick": 4, "shards_thorough": 8, "shrinktime": "15s"},
         ]},
     ],
     "assumptions": ["IPv6 zones are not generated; ports 853/443 on 127.33-35.x.y and ::1 are bound by the harness for the default-port QUIC cases (skipped when busy)"],
@@ -282,8 +282,8 @@ CHECKS["C10"] = {
     "technique": "property-based testing (rapid): generated configurations against the real binary, reference model of rule evaluation, upstream traffic log as oracle",
     "parts": [
         {"engine": "E", "proxy": ["plain"], "tests": [
-            {"run": "TestVfC10Rules", "quick": 160, "thorough": 4000, "shards_quick": 8, "shards_thorough": 16, "timeout_thorough": 3400},
-            {"run": "TestVfC10BadConfig", "quick": 80, "thorough": 1600, "shards_quick": 4, "shards_thorough": 8},
+            {"run": "TestVfC10Rules", "quick": 160, "thorough": 50000, "shards_quick": 8, "shards_thorough": 16, "timeout_thorough": 3400},
+            {"run": "TestVfC10BadConfig", "quick": 80, "thorough": 48000, "timeout_thorough": 3000, "shards_quick": 4, "shards_thorough": 8},
         ]},
     ],
     "assumptions": ["cache off in generated configurations, so a forward decision means exactly one upstream query", "reverse without a domain condition is not generated (the statement does not define it)"],
@@ -297,7 +297,7 @@ CHECKS["C13"] = {
     "technique": "property-based testing (rapid): generated segmentations and pipelines against the real binary, strict stream parser as oracle",
     "parts": [
         {"engine": "E", "proxy": ["plain"], "tests": [
-            {"run": "TestVfC13Framing", "quick": 480, "thorough": 16000, "shards_quick": 8, "shards_thorough": 16, "timeout_thorough": 3400},
+            {"run": "TestVfC13Framing", "quick": 480, "thorough": 85710, "shards_quick": 8, "shards_thorough": 16, "timeout_thorough": 3400},
             {"run": "TestVfC13SlowSegments", "quick": 16, "thorough": 320, "shards_quick": 8, "shards_thorough": 16, "timeout_quick": 300, "timeout_thorough": 3400, "shrinktime": "60s"},
         ]},
     ],
@@ -312,7 +312,7 @@ CHECKS["C04"] = {
     "technique": "randomized concurrent workload generation (rapid) against the real binary under the race detector + poison hook; keyed-answer oracle",
     "parts": [
         {"engine": "E", "proxy": ["plain", "race"], "tests": [
-            {"run": "TestVfC04Mixups", "quick": 6, "thorough": 160, "shards_quick": 6, "shards_thorough": 8, "timeout_quick": 900, "timeout_thorough": 3500, "shrinktime": "90s"},
+            {"run": "TestVfC04Mixups", "quick": 6, "thorough": 400, "shards_quick": 6, "shards_thorough": 8, "timeout_quick": 900, "timeout_thorough": 3500, "shrinktime": "90s"},
         ]},
     ],
     "assumptions": ["fake upstream answers are a keyed function of the question only, so cached and fresh answers coincide"],
@@ -332,7 +332,7 @@ CHECKS["C20"] = {
             {"run": "TestVfC07MemCacheHammer", "quick": 80, "thorough": 3000, "shards_quick": 4, "shards_thorough": 8, "timeout_quick": 300},
         ]},
         {"engine": "P", "pkg": "internal/upstream", "race": True, "tests": [
-            {"run": "TestVfC20TransportHammer", "quick": 64, "thorough": 2400, "shards_quick": 8, "shards_thorough": 16, "shrinktime": "10s"},
+            {"run": "TestVfC20TransportHammer", "quick": 64, "thorough": 7660, "timeout_thorough": 3000, "shards_quick": 8, "shards_thorough": 16, "shrinktime": "10s"},
         ]},
     ],
     "assumptions": ["build tag verif enables the add-only hook in internal/pool (one call site in ReleaseBuf)"],
@@ -346,10 +346,10 @@ CHECKS["C19"] = {
     "technique": "property-based testing (rapid): generated timed histories against the real binary with a gating fake upstream; event-order oracle",
     "parts": [
         {"engine": "E", "proxy": ["plain"], "tests": [
-            {"run": "TestVfC19Prefetch", "quick": 4, "thorough": 80, "shards_quick": 4, "shards_thorough": 8, "timeout_thorough": 3400, "shrinktime": "30s"},
+            {"run": "TestVfC19Prefetch", "quick": 4, "thorough": 170, "shards_quick": 4, "shards_thorough": 8, "timeout_thorough": 3400, "shrinktime": "30s"},
         ]},
         {"engine": "P", "pkg": "app/router", "tests": [
-            {"run": "TestVfC19ReserveHammer", "quick": 24, "thorough": 1600, "shards_quick": 4, "shards_thorough": 8, "shrinktime": "5s", "exclusive": True},
+            {"run": "TestVfC19ReserveHammer", "quick": 24, "thorough": 36920, "timeout_thorough": 3000, "shards_quick": 4, "shards_thorough": 8, "shrinktime": "5s", "exclusive": True},
         ]},
     ],
     "assumptions": ["client groups are selected through UDP source addresses and an ip_marker file", "a burst hit that gets no response is re-sent once on its own before it counts (UDP loss on loopback)"],
@@ -363,9 +363,9 @@ CHECKS["C14"] = {
     "technique": "property-based fault injection (rapid) against scripted fake servers; bounded-time and bounded-dial oracles",
     "parts": [
         {"engine": "P", "pkg": "internal/upstream", "tests": [
-            {"run": "TestVfC14Faults", "quick": 320, "thorough": 12000, "shards_quick": 16, "shards_thorough": 16, "timeout_thorough": 3400},
-            {"run": "TestVfC14Stale", "quick": 160, "thorough": 6000, "shards_quick": 8, "shards_thorough": 16},
-            {"run": "TestVfC14MassWake", "quick": 64, "thorough": 2400, "shards_quick": 4, "shards_thorough": 8},
+            {"run": "TestVfC14Faults", "quick": 320, "thorough": 37890, "shards_quick": 16, "shards_thorough": 16, "timeout_thorough": 3400},
+            {"run": "TestVfC14Stale", "quick": 160, "thorough": 24000, "timeout_thorough": 3000, "shards_quick": 8, "shards_thorough": 16},
+            {"run": "TestVfC14MassWake", "quick": 64, "thorough": 72000, "timeout_thorough": 3000, "shards_quick": 4, "shards_thorough": 8},
             {"run": "TestVfC14Saturated", "quick": 96, "thorough": 3200, "shards_quick": 8, "shards_thorough": 16},
         ]},
     ],
@@ -380,14 +380,14 @@ CHECKS["C18"] = {
     "technique": "property-based testing (rapid): generated close schedules against counting fake servers under -race, socket-inode invariant; generated failing configurations against the real binary",
     "parts": [
         {"engine": "P", "pkg": "internal/upstream", "race": True, "tests": [
-            {"run": "TestVfC18UpstreamClose", "quick": 240, "thorough": 8000, "shards_quick": 8, "shards_thorough": 16, "timeout_thorough": 3400, "shrinktime": "10s"},
+            {"run": "TestVfC18UpstreamClose", "quick": 240, "thorough": 66670, "shards_quick": 8, "shards_thorough": 16, "timeout_thorough": 3400, "shrinktime": "10s"},
         ]},
         {"engine": "P", "pkg": "app/router", "tests": [
             {"run": "TestVfC18RunReleases", "quick": 240, "thorough": 6000, "shards_quick": 8, "shards_thorough": 16, "shrinktime": "10s"},
         ]},
         {"engine": "E", "proxy": ["plain"], "tests": [
-            {"run": "TestVfC18Startup", "quick": 120, "thorough": 3000, "shards_quick": 4, "shards_thorough": 8},
-            {"run": "TestVfC18Shutdown", "quick": 8, "thorough": 200, "shards_quick": 4, "shards_thorough": 8, "shrinktime": "20s"},
+            {"run": "TestVfC18Startup", "quick": 120, "thorough": 39130, "timeout_thorough": 3000, "shards_quick": 4, "shards_thorough": 8},
+            {"run": "TestVfC18Shutdown", "quick": 8, "thorough": 1220, "timeout_thorough": 3000, "shards_quick": 4, "shards_thorough": 8, "shrinktime": "20s"},
         ]},
     ],
     "assumptions": ["exchanges started around Close use contexts without deadline, so 'returned' cannot be due to their own timeout"],
